@@ -2,6 +2,7 @@
 import copy, itertools, json, sys
 from common.core import Check, C, coq, run_cases, Raw
 import ontolib as OL
+from common import gen_doc as G
 from translate import c09 as T1
 
 PID = 'C09'
@@ -91,6 +92,19 @@ def build_variants(rng, budget):
                              set(k for e in es for k in touched(e))))
         except (IndexError, KeyError, StopIteration):
             pass       # the two edits do not compose (one removes what the other edits)
+    # directed compounds for whole-ontology comparison: two elements of one category, one validly upgraded, the other incompatible
+    def two(label, f1, f2, kinds):
+        for first_valid in (True, False):
+            o = copy.deepcopy(base)
+            a, b = f1(o), f2(o)
+            good, bad = (a, b) if first_valid else (b, a)
+            good['description'] = 'changed in a valid upgrade'
+            good['version'] = 2
+            bad['description'] = 'changed without a new version'
+            variants.append(('%s/%s-valid-other-incompatible@mixed' % (label, 'first' if first_valid else 'second'), o, set(kinds)))
+    two('two-object-types', lambda o: OL._ot(o, 'o'), lambda o: OL._ot(o, 'e'), ['objtype:o', 'objtype:e'])
+    two('two-concepts', lambda o: o['concepts'][0], lambda o: o['concepts'][1], ['concept:c'])
+    two('two-event-types', lambda o: next(e for e in o['event-types'] if e['name'] == 'parent'), _et, ['etype:ta'])
     # version bump only
     for kind, fn in (('objtype:o', lambda o: OL._ot(o, 'o')), ('concept:c', lambda o: o['concepts'][0]), ('source:/s/', lambda o: o['sources'][0]),
                      ('etype:ta', _et)):
@@ -108,7 +122,7 @@ def replay(path):
         return 0
     i = obj['input']
     A, B = OL.load_element(i['a']), OL.load_element(i['b'])
-    g = SELECT[i['element']][2]
+    g = SELECT[i['element']][2] if i['element'] in SELECT else (lambda O: O)
     a, b = g(A), g(B)
     print('cmp(a,b)=', real_cmp(a, b), 'cmp(b,a)=', real_cmp(b, a), 'observed:', obj.get('observed'))
     return 1
@@ -223,6 +237,65 @@ def main(argv):
                                                              'a': next(x[1] for x in items if x[0] == la), 'b': next(x[1] for x in items if x[0] == lc)},
                                                    'observed': 'a<b and b<c but cmp(a,c)=%d' % c3})
         ck.dist('triples:' + el.split(':')[0], ntr)
+    # whole ontologies: Ontology.__cmp__ must reject exactly when some pair of shared definitions is incompatible (whatever the order of
+    # the definitions and whichever side is asked), and report equality exactly when both hold the same, equal definitions
+    def shared_elements(A, B):
+        for get in ('get_object_types', 'get_concepts', 'get_event_types', 'get_event_sources'):
+            da, db = getattr(A, get)(), getattr(B, get)()
+            yield set(da) == set(db), [(da[k], db[k]) for k in da if k in db]
+
+    def ont_cmp(A, B):
+        from edxml.error import EDXMLOntologyValidationError
+        try:
+            return 0 if A == B else 1
+        except EDXMLOntologyValidationError:
+            return 3
+    directed = [x for x in loaded if '@mixed' in x[0]]
+    others = [x for x in loaded if '@mixed' not in x[0]]
+    pool = [loaded[0]] + directed + rng.sample(others[1:], min(len(others) - 1, ck.budget(25, 200)))
+    for ia, (la, da, _, A, _) in enumerate(pool):
+        for ib, (lb, db, _, B, _) in enumerate(pool):
+            if ia != 0 and ib != 0 and '@mixed' not in la and '@mixed' not in lb and rng.random() < 0.7:
+                continue
+            exp_eq, exp_rej = True, False
+            for same_names, pairs_ in shared_elements(A, B):
+                exp_eq &= same_names
+                for x, y in pairs_:
+                    c = real_cmp(x, y)
+                    exp_rej |= c == 3
+                    exp_eq &= c == 0
+            want = 3 if exp_rej else 0 if exp_eq else 1
+            got = ont_cmp(A, B)
+            ck.cov['evaluations'] += 1
+            ck.dist('kind:ontology')
+            if got != want:
+                what = 'incompatible-accepted' if want == 3 else 'compatible-rejected' if got == 3 else 'equality'
+                ck.oracle_failures.append({'signature': 'ontology/%s' % what, 'input': {'element': 'ontology', 'a_label': la, 'b_label': lb, 'a': da, 'b': db},
+                                           'observed': 'Ontology comparison gives %d, the definitions it holds give %d (0 equal, 1 differ, 3 rejected)' % (got, want)})
+    # a definition equals its own XML round trip (element by element and as a whole), from both sides
+    from edxml.ontology import Ontology
+    for label, d, kinds, O, xml_bytes in loaded:
+        try:
+            O2 = Ontology()
+            O2.update(etree.fromstring(G.document([xml_bytes.decode('utf-8')]))[0])
+        except Exception as e:
+            ck.oracle_failures.append({'signature': 'round-trip/not-readable', 'input': {'element': 'ontology', 'a_label': label, 'b_label': label, 'a': d, 'b': d},
+                                       'observed': 'the serialised definition cannot be read back: %r' % e})
+            continue
+        for el, (lvl, cmpname, getter, nodef) in list(SELECT.items()) + [('ontology', (None, None, lambda X: X, None))]:
+            try:
+                x, y = getter(O), getter(O2)
+            except Exception:
+                continue
+            if x is None or y is None:
+                continue
+            c1, c2 = (real_cmp(x, y), real_cmp(y, x)) if el != 'ontology' else (ont_cmp(x, y), ont_cmp(y, x))
+            ck.cov['evaluations'] += 2
+            if (c1, c2) != (0, 0):
+                ck.oracle_failures.append({'signature': 'round-trip/%s/%s' % (el.split(':')[0], diff_label(label, 'base')),
+                                           'input': {'element': el, 'a_label': label, 'b_label': label + ' (read back from its XML)', 'a': d, 'b': d},
+                                           'observed': 'cmp(definition, its XML round trip)=%d, reverse %d' % (c1, c2)})
+                break
     # purity: comparing never modifies an operand
     for label, d, kinds, O, before in loaded:
         if etree.tostring(O.generate_xml()) != before:
